@@ -10,6 +10,7 @@ CONSTANTS
   AllowBreak = TRUE
   AllowStall = TRUE
   Cap = 1
+  AckDropSilently = FALSE
   AllowTopo = TRUE
   AllowRemove = TRUE
   FixSenderPrune = TRUE
